@@ -545,11 +545,25 @@ def monitor(case, obs):
     p = log[idx - 1]
     return p[2] == 'close' and p[3] == log[idx][3] and p[4] is not None and p[0] == log[idx][0]
   if client_close is not None:
-    for idx in range(client_close + 1, end_idx):
+    cur = {}
+    for idx in range(end_idx):
       e = log[idx]
-      if e[2] == 'connect':
-        v.append(('connect-after-close/serial-transport-reopen' if reopen(idx) else 'connect-after-close',
-                  'connect attempt to endpoint %s at tick %s after the client was closed at tick %s' % (e[3], e[0], cc_t)))
+      if e[2] == 'rs-new':
+        cur[e[4]] = insts.get(e[3])
+      if idx > client_close and e[2] == 'connect':
+        it = cur.get(e[3])
+        if reopen(idx):
+          sig = 'connect-after-close/serial-transport-reopen'
+          why = 'by a serial transport re-opening its socket after a timeout'
+        elif it is not None and it.close_idx is None:
+          # the retry loop of a ResurrectorSink whose Close() was never called when the client was closed
+          sig = 'connect-after-close/sink-not-closed'
+          why = 'by the retry loop of the endpoint\'s ResurrectorSink, which was never closed (sinks closed at client close: %s)' % (
+              sorted(jt.port for jt in insts.values() if jt.close_idx is not None and jt.close_idx > client_close))
+        else:
+          sig = 'connect-after-close'
+          why = 'although the endpoint\'s sink had been closed'
+        v.append((sig, 'connect attempt to endpoint %s at tick %s after the client was closed at tick %s, %s' % (e[3], e[0], cc_t, why)))
   for it in insts.values():
     if it.close_idx is not None:
       newer = any(jt.port == it.port and jt.new_idx > it.close_idx for jt in insts.values())
